@@ -1,5 +1,7 @@
 import XModel.ManagerFrame
 import XModel.Sched2
+import XModel.ManagerC18
+import XProofs.Properties.C01
 /-!
 # C18 — a failure in the middle of an update is reported and fully recoverable
 Model: `XModel/Manager.lean` with fault injection (`faultIn`: the k-th container write raises).
@@ -41,5 +43,39 @@ theorem C18_recover {S T : Type} (sys : Sched2.Sys S T) (l : List T) (σ : S) (k
     (hord : List.Pairwise (fun t u => sys.NI u t) l) :
     (∀ t, keep t → sys.Q t (Sched2.runAll sys l σ)) ∧ (∀ t ∈ l, sys.Q t (Sched2.runAll sys l σ)) :=
   Sched2.runAll_Q sys l σ keep hgood hkeep hsafe hord
+
+/-- **on the executable manager**: whatever a first attempt of `set_value(ref, value)` did — completed, or failed
+    at the k-th container write — the definitions outside the triggered list still hold afterwards -/
+theorem C18_outside_untouched (sched : Sched) (s : MState) (p : Path) (v : Val) (hi : MInv s)
+    (sc : Scope { s with faultIn := none } p)
+    (hvs : ValidSched (gOf s.idx) (findTaskids s.idx (chainR p)) (sched (findTaskids s.idx (chainR p))))
+    (hbefore : ∀ t ∈ s.defs, t.id ≠ p → (exprSys pySem).Q (toE t) s.store) :
+    ∀ t ∈ s.defs, t.id ≠ p → t.id ∉ sched (findTaskids s.idx (chainR p)) →
+      (exprSys pySem).Q (toE t) (writeAndRun sched s p v).1.store :=
+  writeAndRun_outside sched s p v hi sc hvs hbefore
+
+/-- **recovery on the executable manager**: repeating the assignment after a failed attempt, when it completes,
+    leaves every expression-defined location equal to its definition -/
+theorem C18_recover_exec (sched : Sched) (s : MState) (p : Path) (v : Val) (k : Option Nat) (hi : MInv s)
+    (hc : Consistent s) (hfz : lookDef s.defs p ≠ none → s.frozen = false)
+    (sc : Scope (preState s p) p)
+    (hvs : ValidSched (gOf (preState s p).idx) (findTaskids (preState s p).idx (chainR p))
+      (sched (findTaskids (preState s p).idx (chainR p))))
+    (s' : MState)
+    (hok : setValue sched { (setValue sched { s with faultIn := k } p v).1 with faultIn := none } p v = (s', none)) :
+    Consistent s' :=
+  setValue_recover sched s p v k hi hc hfz sc hvs s' hok
+
+/-! non-vacuity: the chain of `Properties.C01` (c = a + b, e = c * a); `a = 5` with a fault at the third container
+    write leaves `e` stale; repeating the assignment repairs it -/
+section example_
+open Properties.C01
+def base : MState := applyAll id s0 (hist.take 2)
+def failed : MState := (setValue id { base with faultIn := some 2 } da (.int 5)).1
+example : (setValue id { base with faultIn := some 2 } da (.int 5)).2 = some .fault := rfl
+example : get failed.store dc = .ok (.int 7) ∧ get failed.store de = .ok (.int 3) := ⟨rfl, rfl⟩
+example : (setValue id { failed with faultIn := none } da (.int 5)).2 = none ∧
+    get (setValue id { failed with faultIn := none } da (.int 5)).1.store de = .ok (.int 35) := ⟨rfl, rfl⟩
+end example_
 
 end Properties.C18
